@@ -77,6 +77,15 @@ Theorem C03_mntm_verdict : forall m fuel w, valid_mntm m = true ->
 Proof. intros m fuel w Hv. exact (mntm_accepts_spec m Hv fuel w). Qed.
 Print Assumptions C03_mntm_verdict.
 
+(* the native multitape run of ANY table - final states that carry rows and entries whose list of
+   alternatives is empty included (the constructor accepts the latter) - ends by accepting, by the
+   rejection exception or by running out of fuel: in particular no IndexError (the repaired
+   `if not possible_transitions`, mntm.py:259) *)
+Theorem C03_mntm_no_other_outcome : forall m fuel w,
+  mntm_accepts m fuel w = Ok true \/ mntm_accepts m fuel w = Ok false \/ mntm_accepts m fuel w = Err Fuel.
+Proof. intros m fuel w. exact (mntm_accepts_cases m fuel w). Qed.
+Print Assumptions C03_mntm_no_other_outcome.
+
 (* Breadth-first order of the multitape simulator: the dequeued (= yielded) configurations come
    with depths that never decrease, each is reachable in exactly its depth, and unless fuel ran
    out every configuration reachable in fewer moves than the last dequeued one was dequeued (on a
@@ -84,14 +93,14 @@ Print Assumptions C03_mntm_verdict.
    holds configurations of depth d followed by configurations of depth d+1; everything of depth
    < d has been dequeued" (Proofs/TMOrder.v, binv / bfs_order). *)
 Theorem C03_mntm_visits_reachable :
-  forall m fuel w ys o, valid_mntm m = true -> mntm_stepwise m fuel w = (ys, o) ->
+  forall m fuel w ys o, mntm_stepwise m fuel w = (ys, o) ->
   exists depths : list nat, length depths = length ys /\
     (forall i c d, nth_error ys i = Some c -> nth_error depths i = Some d ->
                    mreach m d (mt_start m w) (abs_mcfg c)) /\
     (forall i d d', nth_error depths i = Some d -> nth_error depths (S i) = Some d' -> d <= d') /\
     (o <> Err Fuel -> forall k z, mreach m k (mt_start m w) z ->
        (o = Err Reject \/ S k <= last depths 0) -> exists c, In c ys /\ mzcfg_eq (abs_mcfg c) z).
-Proof. intros m fuel w ys o Hv E. exact (mntm_visits_bfs_order m Hv w fuel ys o E). Qed.
+Proof. intros m fuel w ys o E. exact (mntm_visits_bfs_order m w fuel ys o E). Qed.
 Print Assumptions C03_mntm_visits_reachable.
 
 (* how a run ends: at most fuel configurations are dequeued; an accepting run returns a dequeued
@@ -110,7 +119,7 @@ Proof.
   split; [exact S2|]. split; [exact S1|]. split.
   - intros cl ->. destruct S3 as [Hin [Hf _]]. split; assumption.
   - intros ->. intros k z Hr. split.
-    + intro Hf. apply (S3 k z Hr). split; [exact Hf|]. apply (valid_final_no_delta m Hv). exact Hf.
+    + intro Hf. apply (S3 k z Hr). split; [exact Hf|]. left. apply (valid_final_no_delta m Hv). exact Hf.
     + exact (mntm_reject_visits_all m w fuel ys E k z Hr).
 Qed.
 Print Assumptions C03_mntm_run_ends.
@@ -152,4 +161,14 @@ Example C03_example_ntm_levels :
   let m := mkntm [(0, [(1, [(0, 1, DR); (1, 0, DL)])]); (1, [(0, [(2, 0, DN)])])] 0 0 [2] in
   valid_ntm m = true /\ map (@length _) (fst (ntm_levels m 5 [1])) = [1; 2; 1] /\
   ntm_accepts m 5 [1] = Ok true.
+Proof. vm_compute. repeat split. Qed.
+
+(* an entry with an empty list of alternatives is no transition: q0 walks right over the 1s; on the blank
+   its entry lists no alternative, so the only branch is stuck there and the input is rejected; with
+   the empty entry on 1 instead the machine is stuck at once *)
+Example C03_example_no_alternative :
+  let m := mkmntm 1 [(0, [([1], [(0, [(1, DR)])]); ([0], [])])] 0 0 [1] in
+  let m' := mkmntm 1 [(0, [([1], []); ([0], [(1, [(0, DN)])])])] 0 0 [1] in
+  valid_mntm m = true /\ mntm_accepts m 10 [1;1] = Ok false /\ length (fst (mntm_stepwise m 10 [1;1])) = 3 /\
+  valid_mntm m' = true /\ mntm_accepts m' 10 [1] = Ok false /\ mntm_accepts m' 10 [] = Ok true.
 Proof. vm_compute. repeat split. Qed.
